@@ -206,6 +206,9 @@ def run(ck):
     if not r.ok:
         raise core.Broken("Monitor.tla violates its own invariant %s %s" % (r.violated, r.error))
     if not q:
+        r3 = ck.run_tlc(["monitor"], "Monitor", "Monitor_t3.cfg", workers=8, timeout=1800)
+        if not r3.ok:
+            raise core.Broken("Monitor.tla (3 clients) violates its own invariant %s %s" % (r3.violated, r3.error))
         h = ck.run_tlc(["monitor"], "Monitor", "Monitor_hyp.cfg", workers=2, timeout=600)
         ck.note("NoConcurrentAccessUnderPause on the model of the code as it is: %s" % ("holds" if h.ok else "violated (hypothesis W11 at the monitor)"))
     c = ck.run_tlc(["monitor"], "Monitor", "Monitor_cases.cfg", workers=1, timeout=600)
@@ -230,7 +233,7 @@ def run(ck):
     calm = [b for b in behs if not predicted(b)]
     ck.rng.shuffle(racy)
     ck.rng.shuffle(calm)
-    chosen = racy[:100 if q else 2500] + calm[:50 if q else 1500] + directed()
+    chosen = racy[:100 if q else 1500] + calm[:50 if q else 800] + directed()
     free_eps = [e for e in ENDPOINTS if e != "tick"]   # tick's unsynchronised queue write is exercised only at gates
     (out, seen), (out2, _) = run_logged(ck, [
         ("gated", dict(mode="gated", nwork=3, gap=4, behaviours=[[st[:2] for st in b if st[0] != "acc"] for b in chosen]), chosen),
